@@ -379,8 +379,11 @@ def _strings_for_pattern(pattern, rng, min_len, max_len):
 
 
 class ValueGen:
-    def __init__(self, rng, api, ts_registry, perms=()):
+    def __init__(self, rng, api, ts_registry, perms=(), aware_ts=False):
         self.perms = tuple(perms)     # omitted fields / tags are drawn only for callers holding the class
+        # timezone-aware UTC datetimes are valid Timestamp values (Timestamp.validate says so) but are not
+        # "representable in their format" (they decode to a naive datetime): drawn for C05, not for C04
+        self.aware_ts = aware_ts
         self.rng = rng
         self.api = api
         self.ts = ts_registry
@@ -448,7 +451,10 @@ class ValueGen:
                     pass
             if not pool:
                 return None
-            return ['t', self.ts.id_of(rng.choice(pool)), True]
+            d = rng.choice(pool)
+            if self.aware_ts and rng.random() < 0.4:
+                d = d.replace(tzinfo=datetime.timezone.utc)
+            return ['t', self.ts.id_of(d), True]
         if isinstance(t, Void):
             return ['n']
         if isinstance(t, List):
